@@ -373,6 +373,89 @@ EXIT_DIFF_EXEMPT = {("sunos", "exe"), ("sunos", "exe_layer")}
 EXIT_PRIMES = ("ppid", "status", "cpu_times", "name", "memory_info")
 
 
+def do_recycled_case(platform, case, acc):
+    """The front end's guard on every platform: the PID of the object now belongs to somebody else (same PID, another creation
+    time in the kernel's records) - every signalling and setting method raises NoSuchProcess and nothing reaches the stub
+    kernel's sinks, whichever spelling of the request is used."""
+    env = setup(platform)
+    w, ps = env["w"], env["ps"]
+    op, pid = case["op"], case.get("pid", PID)
+    viols = []
+    w.reset(pid=pid, state="live", salt=case.get("salt", 1))
+    with w.vk:
+        try:
+            p = ps.Process(pid)
+        except BaseException as e:  # noqa: BLE001
+            acc.case(case, True, [(f"construct_exception:{platform}", repr(e))])
+            return
+        if case.get("asked_before"):
+            p.is_running()
+        w.salt = case.get("salt", 1) + 7          # another process under the same PID: every record differs, its creation time too
+        if w.fs is not None:
+            w.build_fs()
+        del w.sink[:]
+        if case.get("asked_after"):
+            try:
+                if p.is_running():
+                    viols.append((f"is_running_True_for_recycled_pid:{platform}", f"{case}"))
+            except Exception as e:  # noqa: BLE001
+                viols.append((f"is_running_exception:{platform}", repr(e)))
+        try:
+            env["ops"][op](p)
+            res = "returned"
+        except ps.NoSuchProcess as e:
+            res = "NoSuchProcess" if type(e) is ps.NoSuchProcess else type(e).__name__
+        except BaseException as e:  # noqa: BLE001
+            res = type(e).__name__
+        acc.count("setters_and_signals_on_a_recycled_pid")
+        delivered = [e for e in w.sink if not (e[0] == "kill" and len(e) > 2 and e[2] == 0)]      # (signal 0 is a probe)
+        if delivered:
+            viols.append((f"delivered_to_new_owner:{platform}:{op}", f"{case}: reached the kernel as {w.sink!r} ({res})"))
+        if res != "NoSuchProcess":
+            viols.append((f"no_NoSuchProcess_for_recycled_pid:{platform}:{op}", f"{case}: {res}"))
+    acc.case(case, True, viols)
+
+
+def do_longname_case(platform, case, acc):
+    """A kernel name cut at 15 bytes that name() completed from cmdline()[0]: the errors raised afterwards - by the front end and
+    by the platform layer alike - carry the name the object reports."""
+    env = setup(platform)
+    w, ps = env["w"], env["ps"]
+    op, pid = case["op"], case.get("pid", PID)
+    viols = []
+    w.reset(pid=pid, state="live", salt=case.get("salt", 1), name="gnome-keyring-d")
+    w.argv0 = "/usr/bin/gnome-keyring-daemon"
+    with w.vk:
+        try:
+            p = ps.Process(pid)
+            full = p.name()
+        except BaseException as e:  # noqa: BLE001
+            acc.case(case, True, [(f"name_exception:{platform}", repr(e))])
+            return
+        if full != "gnome-keyring-daemon":
+            acc.count("longname_cases_without_completion")        # (this platform does not complete names: nothing to compare)
+            acc.case(case, False, [])
+            return
+        w.gone_on_fire = True
+        w.stub.arm(one={0: dict(errno=E.ESRCH)}, from_=None)
+        try:
+            env["ops"][op](p)
+            exc = None
+        except ps.Error as e:
+            exc = e
+        except BaseException:  # noqa: BLE001
+            exc = None
+        finally:
+            w.stub.disarm()
+            w.gone_on_fire = False
+        if exc is not None and w.stub.fired:
+            acc.count("errors_after_a_completed_long_name")
+            if exc.name != full:
+                viols.append((f"error_without_cached_name:{platform}:after_name_was_completed_from_cmdline",
+                              f"{case}: name() said {full!r}, the error of {op}() says {exc.name!r}"))
+    acc.case(case, True, viols)
+
+
 def do_exit_case(platform, case, acc):
     """Call-path differential for a process that exits: oneshot() is a cache, so a method that does go to the kernel
     inside a oneshot() block must report the exit exactly as it does outside one."""
@@ -1684,6 +1767,17 @@ def run_shard(shard):
         if platform == "windows":
             for case in dospaths_cases(platform, pid, seed):
                 do_dospaths_case(platform, case, acc)
+        # (0a) the PID was recycled: the front end's guard, on this platform's layer and with this platform's conditional steps
+        for opname in env["ops"]:
+            if opname in SETTERS_AND_SIGNALS and not opname.startswith("L:") and not opname.startswith("wait"):
+                for before, after in ((False, False), (True, False), (False, True)):
+                    do_recycled_case(platform, dict(k="recycled", platform=platform, op=opname, pid=pid, salt=salts[0],
+                                                    asked_before=before, asked_after=after), acc)
+        # (0a') a name of 15 bytes completed from the command line, then an error
+        if platform != "windows":
+            for opname in env["ops"]:
+                if opname not in ("name", "L:name") and opname not in SETTERS_AND_SIGNALS:
+                    do_longname_case(platform, dict(k="longname", platform=platform, op=opname, pid=pid, salt=salts[0]), acc)
         # (0b) the process exits: plain call vs. the same call inside a primed oneshot()
         primes = [a for a in EXIT_PRIMES if a in env["ops"]]
         for opname in env["ops"]:
@@ -1745,6 +1839,12 @@ def run_shard(shard):
                 print("REPLAY", json.dumps(case), "->", describe(r))
             elif k == "exit":
                 viols = do_exit_case(platform, case, acc)
+                print("REPLAY", json.dumps(case))
+            elif k == "recycled":
+                do_recycled_case(platform, case, acc)
+                print("REPLAY", json.dumps(case))
+            elif k == "longname":
+                do_longname_case(platform, case, acc)
                 print("REPLAY", json.dumps(case))
             elif k == "dospaths":
                 viols = do_dospaths_case(platform, case, acc)
